@@ -299,6 +299,9 @@ func (s *ethService) GetLogs(crit filterArg) ([]ethtypes.Log, error) {
 	if inv := w.curInvocation(); inv != nil {
 		inv.getLogsOK++
 	}
+	if len(out) > 0 {
+		w.logBatches++
+	}
 	w.reqLog = append(w.reqLog, fmt.Sprintf("req#%d c%d eth_getLogs %s filter=%d -> %d logs", w.reqCount, s.c.id, detail, len(crit.Address), len(out)))
 	return out, nil
 }
